@@ -43,12 +43,7 @@ def winit():
 def built(name):
     if name not in _W['built']:
         if 'fam' not in _W:
-            import pickle
-            import substrate
-            d = substrate.CACHE / 'fam'
-            p = max(d.glob('*.pickle'), key=lambda q: q.stat().st_mtime)
-            with open(p, 'rb') as f:
-                _W['fam'] = pickle.load(f)
+            _W['fam'] = _W['schemax'].family_current()
         if name in _W['fam']:
             _W['built'][name], _W['base'][name] = _W['fam'][name]
         else:
